@@ -14,6 +14,7 @@ def run(ck, fb, fbd):
     readers.loop_rules(ck, fb)
     readers.exception_rules(ck, fb)
     readers.extract_init_rule(ck, fb)
+    readers.counter_width_rule(ck, fb)
     readers.memcpy_null_rule(ck, fb)
     readers.ovmb_framing_rules(ck, fb)  # the handle offset bound is what makes R.handle's range test mean something
     # a cell accepted from a file stores only handles it was given: the hexahedral re-ordering must not leave an invalid slot (shared with C16)
